@@ -19,7 +19,7 @@ from . import universe
 UTC = datetime.timezone.utc
 MAX_TS_S = 253402300799  # 9999-12-31T23:59:59Z
 
-SHAPES = ("tiny", "small", "medium", "boundary", "wide", "nully", "taggy", "big")
+SHAPES = ("tiny", "small", "medium", "boundary", "wide", "nully", "taggy", "big", "long_array")
 
 
 def draw_shape(rng) -> dict:
@@ -48,6 +48,9 @@ def draw_shape(rng) -> dict:
         base.update(nondefault_rate=0.95, null_rate=0.05, fan=2)
     elif name == "big":
         base.update(str="big", fan=2, budget=30)
+    elif name == "long_array":
+        # one array with 126..130 elements (two-byte compact array count)
+        base.update(fan=2, budget=60, long_arrays=1, null_rate=0.1, nondefault_rate=0.8)
     return base
 
 
@@ -55,13 +58,14 @@ MIN_SHAPE = {"name": "min", "fan": 0, "str": "small", "null_rate": 1.0, "nondefa
 
 
 class _Ctx:
-    __slots__ = ("rng", "shape", "budget", "big_left")
+    __slots__ = ("rng", "shape", "budget", "big_left", "long_left")
 
     def __init__(self, rng, shape):
         self.rng = rng
         self.shape = shape
         self.budget = shape["budget"]
         self.big_left = 1  # at most one very long string per instance
+        self.long_left = shape.get("long_arrays", 0)
 
 
 def parse_type(tp) -> tuple[bool, bool, bool, object]:
@@ -265,6 +269,18 @@ def _gen_value(ctx: _Ctx, cls: type, f: dataclasses.Field, depth: int):
         return None
     if is_array:
         fan = ctx.shape["fan"]
+        if ctx.long_left > 0 and depth <= 2 and rng.random() < 0.7:
+            ctx.long_left -= 1
+            n = rng.choice((126, 127, 128, 130))
+            saved = ctx.shape
+            ctx.shape = {**saved, "fan": 0, "str": "small", "nondefault_rate": 0.2}
+            ctx.budget += 4 * n
+            items = []
+            for _ in range(n):
+                ctx.budget -= 1
+                items.append(None if (el_opt and not nullable_leaf and rng.random() < 0.1) else one())
+            ctx.shape = saved
+            return tuple(items)
         if depth >= 6 or ctx.budget <= 0:
             n = 0
         else:
